@@ -465,3 +465,95 @@ func gaussianSequenceScenario(cfg gaussCfg, depth int, first int) engine.Scenari
 		c.Outcome(name, envA.off, prevHash)
 	}}
 }
+
+// ---------------------------------------------------------------------------------------------
+// output-domain flag x level views x interleavings: a Montgomery-output sampler and all its views (views of views, fresh
+// views, the max-level view) must return the Montgomery form of what a plain-output sampler and the same views draw
+// from the same bytes. Read / ReadNew only: Montgomery ReadAndAdd is the known input class of gaussian/ReadAndAdd.
+
+var gauViewOps = []string{"Read", "ReadNew", "AtLevel(0).Read", "AtLevel(1).ReadNew", "AtLevel(max).Read", "new AtLevel(0) view.ReadNew", "AtLevel(0).AtLevel(max).Read", "AtLevel(1).Read"}
+
+func gaussianMontgomeryViewsScenario(cfg gaussCfg, depth int) engine.Scenario {
+	name := "gaussian/montgomery-views/" + cfg.name
+	return engine.Scenario{Name: name, Bound: -1, Fn: func(c *engine.Chooser) {
+		mod := cfg.ch.mod
+		L := len(mod) - 1
+		r := ringOf(mod)
+		viaNewSampler := c.Choose(2, "constructor") == 1
+		st := &stream{bgSeed: 777}
+		envA, envB := newPRNG(st), newPRNG(st)
+		X := ring.DiscreteGaussian{Sigma: cfg.sigma, Bound: cfg.bound}
+		mk := func(env *scriptPRNG, mont bool) ring.Sampler {
+			if viaNewSampler {
+				s, err := ring.NewSampler(env, r, X, mont)
+				if err != nil {
+					panic(err)
+				}
+				return s
+			}
+			return ring.NewGaussianSampler(env, r, X, mont)
+		}
+		a, b := mk(envA, true), mk(envB, false) // a: Montgomery output; b: plain twin on the same bytes
+		a0, a1, aL := a.AtLevel(0), a.AtLevel(1), a.AtLevel(L)
+		b0, b1, bL := b.AtLevel(0), b.AtLevel(1), b.AtLevel(L)
+		n := 1 + c.Choose(depth, "length")
+		for step := 0; step < n; step++ {
+			op := c.Choose(len(gauViewOps), "op")
+			var got, twin ring.Poly
+			level := L
+			switch op {
+			case 0:
+				got, twin = r.NewPoly(), r.NewPoly()
+				a.Read(got)
+				b.Read(twin)
+			case 1:
+				got, twin = a.ReadNew(), b.ReadNew()
+			case 2:
+				level = 0
+				got, twin = r.AtLevel(0).NewPoly(), r.AtLevel(0).NewPoly()
+				a0.Read(got)
+				b0.Read(twin)
+			case 3:
+				level = 1
+				got, twin = a1.ReadNew(), b1.ReadNew()
+			case 4:
+				got, twin = r.NewPoly(), r.NewPoly()
+				aL.Read(got)
+				bL.Read(twin)
+			case 5:
+				level = 0
+				got, twin = a.AtLevel(0).ReadNew(), b.AtLevel(0).ReadNew()
+			case 6:
+				got, twin = r.NewPoly(), r.NewPoly()
+				a0.AtLevel(L).Read(got)
+				b0.AtLevel(L).Read(twin)
+			case 7:
+				level = 1
+				got, twin = r.AtLevel(1).NewPoly(), r.AtLevel(1).NewPoly()
+				a1.Read(got)
+				b1.Read(twin)
+			}
+			if got.Level() != level {
+				c.Fail("C17/gaussian/montgomery-views/level", "%s returned level %d, want %d", gauViewOps[op], got.Level(), level)
+				return
+			}
+			// the plain twin is a valid sample ...
+			if _, ok := gaussValues(c, "montgomery-views/plain-twin", cfg, r, level, false, twin); !ok {
+				return
+			}
+			// ... and the Montgomery sampler's output is its Montgomery form (hence, after IMForm, in the support and one
+			// integer across the moduli)
+			if ok, why := polyCongruent(r, got, mformPoly(r, twin, level), level); !ok {
+				c.Fail("C17/gaussian/montgomery-views/"+gauViewOps[op]+"/not-the-montgomery-form-of-the-plain-sample", "%s step %d: a montgomery=true sampler does not return MForm(what the plain sampler draws from the same bytes): %s", cfg.name, step, why)
+				return
+			}
+			if envA.off != envB.off {
+				c.Fail("C17/gaussian/montgomery-views/bytes-consumed", "step %d %s: %d vs %d bytes", step, gauViewOps[op], envA.off, envB.off)
+				return
+			}
+			c.State("gaussian-montgomery", cfg.name, envA.off, hashPoly(twin, 0))
+			c.Cover("gaussian-montgomery-view-op", gauViewOps[op])
+		}
+		c.Outcome(name, viaNewSampler, envA.off)
+	}}
+}
